@@ -36,7 +36,7 @@ def drop_wt(wt):
 def build_demo(wt, demo, out):
     inc = os.path.join(wt, "CPP/Clipper2Lib/include")
     src = os.path.join(wt, "CPP/Clipper2Lib/src")
-    cmd = "g++ -std=c++17 -O1 -w -I %s -I %s %s %s/*.cpp -o %s" % (inc, os.path.join(wt, "CPP/Utils"), demo, src, out)
+    cmd = "g++ -std=c++17 -O1 -w -pthread -I %s -I %s %s %s/*.cpp -o %s" % (inc, os.path.join(wt, "CPP/Utils"), demo, src, out)
     meta_flags = ""
     r = sh(cmd)
     return r.returncode == 0, r.stderr[-2000:]
@@ -48,6 +48,21 @@ def validate(d):
     wt = make_wt(tag)
     try:
         demo = os.path.join(d, "demo.cpp")
+        demo_sh = os.path.join(d, "demo.sh")
+        if os.path.exists(demo_sh):
+            env = dict(os.environ); env["ROOT"] = wt
+            r = subprocess.run(["sh", os.path.abspath(demo_sh)], capture_output=True, text=True, env=env, timeout=1200)
+            res["demo_builds_clean"] = True
+            res["demo_exit_without_patch"] = r.returncode
+            r = sh(["git", "-C", wt, "apply", os.path.abspath(os.path.join(d, "patch.diff"))])
+            res["patch_applies"] = r.returncode == 0
+            r = sh("cd %s && cmake -G Ninja -S CPP -B _build -DUSE_EXTERNAL_GTEST=ON -DCMAKE_BUILD_TYPE=RelWithDebInfo >/dev/null && cmake --build _build -j16 2>&1 | tail -n 5 && ctest --test-dir _build -j8 --timeout 900 2>&1 | tail -n 4" % wt)
+            res["tests_pass_with_patch"] = "100% tests passed" in r.stdout
+            r = subprocess.run(["sh", os.path.abspath(demo_sh)], capture_output=True, text=True, env=env, timeout=1200)
+            res["demo_exit_with_patch"] = r.returncode
+            res["demo_output_with_patch"] = (r.stdout + r.stderr)[-600:]
+            res["confirmed"] = bool(res["tests_pass_with_patch"] and res["demo_exit_without_patch"] == 0 and res["demo_exit_with_patch"] != 0)
+            return res
         flags = ""
         mf = os.path.join(d, "meta.json")
         meta = json.load(open(mf)) if os.path.exists(mf) else {}
